@@ -19,7 +19,7 @@ VERDICT = {
     "C04-2": ("C04", ""),
     "C05-1": ("C05, C15 K2", "mixed-operand one-op programs added after the miss"),
     "C05-2": ("C15 K1", "a C helper: invisible at IR level (C05)"),
-    "C05-3": (None, "C emission of slot wrappers is outside both engines"),
+    "C05-3": ("C05 K-slots", "slot-wrapper kernel (emitted C -> LLVM IR -> z3) added after the miss; evaluated with patch_rebased.diff because two fix: commits changed the surrounding lines"),
     "C06-1": ("C06", "generated displays of length 10-12 added after the miss"),
     "C06-2": ("C06", "one-branch definition + reference-free raising call shapes added after two misses"),
     "C06-3": (None, "C emission (emitclass) is outside the IR-level claim"),
